@@ -62,6 +62,11 @@ def _list_items(cp):
   orphan_sections = cp.orphan_sections
   raw_items = _parse_raw(cp, orphan_sections)
   items.extend(raw_items)
+
+  # [Variables] is the parser's default section so is not returned by sections()
+  raw_cp = cp.raw_config_parser
+  for k,v in raw_cp.defaults().items():
+    items.append(("{section}:{key}".format(section = raw_cp.default_section, key = k), v))
   return items
 
 def _list_item_labels(cp):
